@@ -107,6 +107,7 @@ func Crit(msg string, ctx ...interface{}) {
 		debug.PrintStack()
 		time.Sleep(time.Second)
 	}
+	verifCrit(msg)
 	os.Exit(1)
 }
 
